@@ -16,8 +16,11 @@ clusters are renamed by the model (rename does not touch the FAT).
 At the end of a history the model's image is decoded by Spec/Abs.abs and its root names are compared with the library's own `list`.
 Directly on the implementation, independent of the model: an operation the model covers must leave every page outside the root
 region byte-identical (after unmount) - the frame theorem C01_vol_frame evaluated on the device.
-A disagreement with the model is reported nofail=True (theorem_or_correspondence); a frame failure on the device is a failing
-input (replay = the script)."""
+RESPELL WITH A SECOND MATCH (D27, fixed by 7e5011a): the deterministic families of cdir_corr.RESPELL run here too, on whole
+devices (the aimed rename must answer AlreadyExists and leave every page as it was; theorem C03_vol_rename_keeps_wf_closed).
+Model-independent: the library's final listing must not show two long names equal under the executor's case folding.
+A disagreement with the model is reported nofail=True (theorem_or_correspondence); a frame failure on the device or a
+duplicate in the final listing is a failing input (replay = the script)."""
 import hashlib
 import vlib, namelib, fatimg
 from vlib import hexs
@@ -161,8 +164,25 @@ def run_stream(rep, tier, seed):
         prelude, ops = gen_history(rng, nops, "root16" in conf[0])
         lines, pf, pp, marks, li = build_script(conf, prelude, ops)
         jobs.append((conf, prelude, ops, lines, pf, pp, marks, li))
+    # respell-with-a-second-match histories (D27): one per family, ending right after the aimed renames
+    nrespell = 0
+    for fi, fam in enumerate(cdir_corr.RESPELL):
+        conf = CONFS[fi % len(CONFS)]
+        rops, aimed = cdir_corr.respell_ops(fam, "")
+        ops = [("create" if o[0] == "create_file" else o[0],) + tuple(o[1:]) for o in rops[:max(aimed) + 1]]
+        lines, pf, pp, marks, li = build_script(conf, [], ops)
+        jobs.append((conf, [], ops, lines, pf, pp, marks, li))
+        nrespell += 1
     results = vlib.run_scripts([j[3] for j in jobs])
-    _, table = namelib.upper_table("default")
+    utable, table = namelib.upper_table("default")
+    ndup = 0
+    for ji, (conf, prelude, ops, lines, pf, pp, marks, li) in enumerate(jobs):
+        if results[ji][li].kind == "ok":
+            d = cdir_corr.dup_long(results[ji][li].extra, utable)
+            if d is not None:
+                ndup += 1
+                rep.violation("[cvol] %s: at the end of the history the root lists two entries whose long names are equal under case "
+                              "folding (%r and %r): duplicate names (C03 WDupLong; D27)" % (conf[0], d[0], d[1]), {"script": lines})
     resync_after = set()         # (job, op index): the model declined this op ("na") - it is re-synchronised on the library's pages
     geoms = []
     for ji, (conf, prelude, ops, lines, pf, pp, marks, li) in enumerate(jobs):
@@ -297,7 +317,7 @@ def run_stream(rep, tier, seed):
                               {"script": lines[:pi + 1]})
         rep.distinct(("cvol", conf[0], op[0], mtag, op[1:], lib.get(max(lib)) if lib else None))
     rep.cov["cvol_correspondence"] = {
-        "histories": nhist, "configs": [c[0] for c in CONFS[:min(nhist, len(CONFS))]], "ops_compared_whole_device": ncmp,
+        "histories": nhist + nrespell, "respell_second_match_histories_D27": nrespell, "duplicate_long_names_in_final_listing": ndup, "configs": [c[0] for c in CONFS[:min(nhist, len(CONFS))]], "ops_compared_whole_device": ncmp,
         "disagreements": nviol, "frame_failures_on_device": nframe, "declined_by_model_na": nna, "skipped_stale": nstale,
         "model_outcomes": kinds, "device_pages_compared": pages_total,
         "longest_model_only_chain_per_history": [chained[j][0] for j in sorted(chained)]}
